@@ -149,7 +149,8 @@ def gen_rx(rng, depth=0, exotic=0.1, alphabet=ALPHA, allow_nullable=0.15):
 
 
 LITS = ["a", "b", "ab", "abc", "ba", "aa", "0", "01", "if", "+", "++", "(", ")", "==", "=", "-", "->", ".", "..", "*", "a.b", "[a]", "a|b", "\\", "^", "$", "{", "}", "a b",
-        "é", "éa", "λ", "ßb", "é", "€", "'", "/", "//", "#", "?", "a+", "(a)", "\t", "x\"y", "\"", "\\d", "\\\\", "###", "\"###", "r\"", "a\\b", "\n", "[", "]", "{2}", "a{2}", "&&", "~", "a-c", "𝛼"]
+        "é", "éa", "λ", "ßb", "é", "€", "'", "/", "//", "#", "?", "a+", "(a)", "\t", "x\"y", "\"", "\\d", "\\\\", "###", "\"###", "r\"", "a\\b", "\n", "[", "]", "{2}", "a{2}", "&&", "~", "a-c", "𝛼",
+        "\\→", "\"é\"", "é\n", "λ\\", "\té", "a\\é", "ß\"", "€\t€", "\\ж\\"]
 
 
 def lit_grammar_text(s):
